@@ -3,6 +3,7 @@
    Print Assumptions.  GENERATED skeleton (tools/mkprops.py), statements are the ones Coq prints for the lemmas. *)
 From Coq Require Import ZArith List Bool String Reals.
 From VQ Require Import Num Model.Vec Model.Core Proofs.CoreEMA Glue.CoreGlue.
+From VQ Require Import Glue.Pin_fp_C03.
 Import ListNotations.
 Open Scope R_scope.
 
@@ -231,3 +232,8 @@ Theorem C03_tie_update_ema_expr :
         "self.embed_avg / rearrange(cluster_size, '... -> ... 1')"].
 Proof. exact (@glue_update_ema_expr). Qed.
 Print Assumptions C03_tie_update_ema_expr.
+
+Theorem C03_tie_source_footprint :
+  fp_C03.fp_C03 = pinned_fp_C03.
+Proof. exact (@Pin_fp_C03.pin_fp_C03). Qed.
+Print Assumptions C03_tie_source_footprint.
